@@ -24,12 +24,12 @@ Definition res_receiver_send_data (last : bool) (c : connp) : st * connp :=
     let k := c_out c in
     (* d.len is a size_t: read < receiver would wrap *)
     let c := if (k_read k <? k_receiver k)%nat then c <| c_fault := true |> else c in
-    (* data = out_current_data + receiver_offset: a NULL / stale chunk with a non-zero length is an invalid read
-       (same rule as MTxCommon.req_receiver_send_data); NULL + k with k > 0 is a wild pointer *)
-    let c := match k_data k with
-             | None => if (k_receiver k <? k_read k)%nat || (0 <? k_receiver k)%nat then c <| c_fault := true |> else c
-             | Some _ => c
-             end in
+    (* data = out_current_data + receiver_offset, len = read - receiver: fewer readable bytes than len (NULL chunk, or a
+       chunk of an earlier call that the model forgot: MConnp.forget_chunks) is an invalid read, same rule as
+       MTxCommon.req_receiver_send_data; NULL + k with k > 0 is a wild pointer *)
+    let have := match cur_slice k (k_receiver k) (k_read k) with Some s => length s | None => 0%nat end in
+    let c := if (have <? k_read k - k_receiver k)%nat then c <| c_fault := true |> else c in
+    let c := match k_data k with None => if (0 <? k_receiver k)%nat then c <| c_fault := true |> else c | Some _ => c end in
     match run_data_hook cb h (out_txi c) (cur_slice k (k_receiver k) (k_read k)) last c with
     | (ST_OK, c) => (ST_OK, rs_set_out (fun k => k <| k_receiver := k_read k |>) c)
     | r => r
